@@ -420,7 +420,12 @@ static void op_KTagged(const jv *in, jout *out) {
     size_t n = k_msg_in(in); static unsigned char tag[1024]; long tl = jv_bytes(in, "tag", tag, sizeof(tag)); unsigned char d[32]; int rv;
     if (tl < 0) tl = 0;
     memset(d, 0, 32);
-    rv = secp256k1_tagged_sha256(CTX, d, tag, (size_t)tl, K_MSG, n);
+    /* "alias": 1 = the digest overwrites the start of the message buffer, 2 = the start of the tag buffer (hashing in place; only when
+     * that buffer holds at least 32 bytes; spec/api/Aliasing.tla) */
+    { long al = jv_int(in, "alias", 0);
+      if (al == 1 && n >= 32) { rv = secp256k1_tagged_sha256(CTX, K_MSG, tag, (size_t)tl, K_MSG, n); memcpy(d, K_MSG, 32); }
+      else if (al == 2 && tl >= 32) { rv = secp256k1_tagged_sha256(CTX, tag, tag, (size_t)tl, K_MSG, n); memcpy(d, tag, 32); }
+      else rv = secp256k1_tagged_sha256(CTX, d, tag, (size_t)tl, K_MSG, n); }
     jo_int(out, "ret", rv); jo_bytes(out, "hash", d, 32);
 }
 
